@@ -43,6 +43,10 @@ EMBED = {
 }
 
 HOSTILE_INNER = [
+    # literals with the prefixes other SQL flavours give them, numbers of every spelling: letters and digits around quotes are text too
+    "select E'a\\nb', N'x', X'00FF', b'0101', _utf8'x', U&'d', n'y', e'z' from t",
+    "select * from t where a = E'it''s' and b = x'AB' and c = 1e5 and d = .5 and e = 5. and f = 0x1F and g = 1.e3",
+    "select $1, :name, %s, %(n)s, $$body$$ from t",
     "select * from t where name = ''",
     "select * from t where name = 'it''s'",
     "select '''', '''a', 'a''', 'a''''b'",
